@@ -145,6 +145,34 @@ std::string roundtrip(const std::vector<F> &vals, ToBits tb) {
     return out;
 }
 
+// Outcome signature (no values) of `calls` consecutive row calls of scalar type F on one stream:
+// used to check that accept / reject / stream position do not depend on the scalar type.
+template <class F>
+std::string rowsig(const std::string &text, long n, char sep, int calls) {
+    std::istringstream is(text);
+    std::string out;
+    for (int c = 0; c < calls; ++c) {
+        try {
+            if (n >= 0) {
+                Eigen::VectorX<F> v = Eigen::VectorX<F>::Constant(n, F(-99));
+                alpaqa::csv::read_row_impl<F>(is, v, sep);
+                out += "ok " + std::to_string(n);
+                for (long i = 0; i < n; ++i)
+                    out += " " + std::to_string((long long)v(i));
+            } else {
+                auto w = alpaqa::csv::read_row_std_vector<F>(is, sep);
+                out += "ok " + std::to_string(w.size());
+                for (auto x : w)
+                    out += " " + std::to_string((long long)x);
+            }
+        } catch (std::exception &e) {
+            out += errkind(e);
+        }
+        out += " | " + sstate(is) + (c + 1 < calls ? " ; " : "");
+    }
+    return out;
+}
+
 } // namespace
 
 int main() {
@@ -293,6 +321,23 @@ int main() {
                     }
                     out += " | " + sstate(in);
                 }
+            } else if (op == "rowT") {
+                // rowT <d|f|l|i> <n | -1 = std_vector> <sephex> <texthex> <calls>
+                std::string ty = t.tok();
+                long n         = std::stol(t.tok());
+                char sep       = unhex(t.tok()).at(0);
+                std::string tx = unhex(t.tok());
+                int calls      = (int)t.nat();
+                if (ty == "d")
+                    out = rowsig<double>(tx, n, sep, calls);
+                else if (ty == "f")
+                    out = rowsig<float>(tx, n, sep, calls);
+                else if (ty == "l")
+                    out = rowsig<long double>(tx, n, sep, calls);
+                else if (ty == "i")
+                    out = rowsig<Eigen::Index>(tx, n, sep, calls);
+                else
+                    throw std::runtime_error("type");
             } else if (op == "rtf") {
                 long n = t.nat();
                 std::vector<float> v;
